@@ -61,7 +61,7 @@ def run(chk):
 
     core.differential(chk, "docs_composeinfo", cases, "roundtrip_ci", model_cases=[c["desc"] for c in cases],
                       impl_fn="impl_roundtrip", oracle=oracle,
-                      nontrivial=lambda c, r: r[0] == "ok" and max(depth(t) for t in c["desc"][3].values()) >= 2)
+                      nontrivial=lambda c, r: r[0] == "ok" and max([depth(t) for t in c["desc"][3].values()] or [0]) >= 2)
     return chk.finish(
         rule="compose descriptions: all compose/release types, labels, layered or not, 1-3 top-level variants, forests to depth 3 "
              "mixing all variant types incl. layered-product variants with their own release, child arch subsets, random subsets "
